@@ -38,6 +38,10 @@ func init() {
 			Run: func(P *Program, R *Report) { carriedCheckedRule(P, R) }},
 		Rule{ID: "C12.b", Explain: "binding: the m-response of a range proof is (a copy of) AResponses[index] for the same index that names its base R<index>, assigned before the structure check and the contributions.",
 			Run: func(P *Program, R *Report) { bindingRule(P, R) }},
+		Rule{ID: "C12.j", Explain: "the m-response of a range proof is never taken from the message: rangeproof.Proof.MResponse is excluded from decoding (it is installed from the hidden attribute's response, C12.b).",
+			Run: func(P *Program, R *Report) {
+				notDecodableRule(P, R, "C12.j", [][2]string{{"rangeproof.Proof", "MResponse"}})
+			}},
 		Rule{ID: "C12.c", Explain: "ExtractStructure rejects K == nil, Ld > Lm, len(Cs) outside {3,4}, K.BitLen() > Lm + IntSize, three squares with A != 4, sign outside {1,-1} and more than 4 squares.",
 			Run: func(P *Program, R *Report) { extractLimitsRule(P, R) }},
 		Rule{ID: "C12.d", Explain: "VerifyProofStructure size limits: V5 <= Lm+ld+2+Lh+Lstatzk+1 bits, M and V_i <= Lm+Lh+Lstatzk+1, D_i <= ld+Lh+Lstatzk+1, C_i <= |N| bits (symbolic comparison).",
